@@ -198,8 +198,17 @@ class Prefixed(BaseModel):
     # def __get_validators__(cls):
     #     yield cls.validate
 
+    def canonical(self) -> Tuple[str, str]:
+        """The one spelling of our value: digits and prefix-name of its closest-prefix form.
+        Equal values spell alike, however they were written: `1000 * µ` and `1 * m` are `("1", "MILLI")`."""
+        if self.number == 0:
+            return ("0", Prefix.UNIT.name)
+        scaled = self.scale()
+        return (format(scaled.number.normalize(), "f"), scaled.prefix.name)
+
     def __hash__(self):
-        return hash((self.number, self.prefix))
+        # Equal values hash alike. (Equality is by value, not by spelling.)
+        return hash(self.canonical())
 
     def __int__(self) -> int:
         return int(self.number) * 10**self.prefix.value
